@@ -198,8 +198,11 @@ def check_ttl(prop, tier, seed):
             cov["mc_runs"].append(dict(module="KBSeq.tla (Expiry)", config=title, distinct_states=r["distinct"], states_generated=r["states"], invariants=MC_INV[prop]))
             log("MC KBSeq expiry %s: %d distinct states" % (title, r["distinct"]))
         # engines without native TTL: expiry inside compaction, real time with a 1 s TTL
-        n = 64 if quick else 640
-        behs = seq_gen(work, dict(TTL_CONSTS, Keys={1, 2, 3, 4}, EventKeys={2, 3}, MaxOps=6, CompactAfter=2), seed, n, name="genttl")
+        n = 128 if quick else 960
+        behs = seq_gen(work, dict(TTL_CONSTS, Keys={1, 2, 3, 4}, EventKeys={2, 3}, MaxOps=6, CompactAfter=2), seed, n // 2, name="genttl")
+        # short histories around one Event record with two or three compactions (repeated, decreasing, with marks that age)
+        behs += seq_gen(work, dict(TTL_CONSTS, Keys={1, 2}, EventKeys={2}, MaxOps=5, CompactAfter=1, CompactKinds={"zero", "cur-1", "cur-2"},
+                                   OpKinds={"create", "update", "compact"}), seed + 1, n // 2, name="genttl2")
         aged = sum(1 for b in behs for o in json.loads(b)["ops"] if o["op"] == "compact" and o["aged"] > 0)
         flags = ["-seed", str(seed), "-frac", "0.0", "-finalfrac", "0.1" if quick else "0.5", "-streams=false", "-ttl", "1", "-keyset", "events"]
         half = len(behs) // 2
@@ -220,7 +223,7 @@ def check_ttl(prop, tier, seed):
         # engines with native TTL: scripted scenario with explicit expectations
         d = work.sub("ttlrun")
         procs = []
-        for eng in ("memkv", "badger", "metrics"):
+        for eng in ("memkv", "badger", "metrics", "tikv"):   # tikv: the scripted scenario for engines without native TTL
             for i in range(2 if quick else 6):
                 tr = os.path.join(d, "ttl_%s_%d.ndjson" % (eng, i)); rp = os.path.join(d, "ttl_%s_%d.json" % (eng, i))
                 procs.append((subprocess.Popen(["timeout", "60", binp, "ttlrun", "-engine", eng, "-out", tr, "-report", rp], stdout=subprocess.PIPE, stderr=subprocess.STDOUT, env=GOENV, text=True), eng, tr, rp))
